@@ -39,11 +39,13 @@ structure Params where
   waitsForGoroutines : Bool
   /-- `c.runner = nil` is assigned only in `Kill`'s deferred function, after `clientWaitGroup.Wait()` -/
   runnerClearedAfterWait : Bool
+  /-- net/rpc: the host's yamux session runs with keep-alive (the only thing that ends a call to a frozen peer) -/
+  rpcKeepAlive : Bool
   deriving DecidableEq, Repr
 
 def Params.Good (P : Params) : Prop :=
   P.graceMs = 2000 ∧ P.forceAfterGrace = true ∧ P.shutdownRpcHasDeadline = true ∧ P.quitEofIsGraceful = true ∧
-  P.waitsForGoroutines = true ∧ P.runnerClearedAfterWait = true
+  P.waitsForGoroutines = true ∧ P.runnerClearedAfterWait = true ∧ P.rpcKeepAlive = true
 
 instance (P : Params) : Decidable P.Good := by unfold Params.Good; exact inferInstance
 
@@ -65,7 +67,7 @@ def close (P : Params) (proto : Proto) (beh : Beh) (replyLost : Bool) : CloseRes
   match proto, beh with
   -- the dead-peer detection closes the session: the pending `Control.Quit` call ends with an unexpected EOF,
   -- which counts as a successful close exactly like a reply lost to the plugin's exit
-  | .netrpc, .frozen => (if P.quitEofIsGraceful then .ok else .err, libDeadPeerMs)
+  | .netrpc, .frozen => if P.rpcKeepAlive then (if P.quitEofIsGraceful then .ok else .err, libDeadPeerMs) else (.hangs, 0)
   | .netrpc, .deadAlready => (if P.quitEofIsGraceful then .ok else .err, 0)
   | .netrpc, .ignores => (.ok, 0)
   | .netrpc, _ => (if replyLost then (if P.quitEofIsGraceful then .ok else .err) else .ok, 0)
